@@ -110,3 +110,91 @@ def maskRows (m width height : Nat) : List Nat := packRows (fun x y => maskCond 
 
 end QR
 end QRV.Spec.Patterns
+
+namespace QRV.Spec.Patterns
+namespace Micro
+
+def size (v : Nat) : Nat := 9 + 2 * v
+
+/-- function modules of Micro QR: timing row/column, the finder with its separator, the format area -/
+def isFunction (_v x y : Nat) : Bool :=
+  x = 0 || y = 0 || (x < 8 && y < 8) || (y = 8 && 1 ≤ x && x ≤ 8) || (x = 8 && 1 ≤ y && y ≤ 8)
+
+def isDark (_v x y : Nat) : Bool :=
+  if x < 8 && y < 8 then x < 7 && y < 7 && QR.finderDark 3 3 x y
+  else if y = 0 then x % 2 = 0
+  else if x = 0 then y % 2 = 0
+  else false
+
+def baseRows (v : Nat) : List Nat := packRows (isDark v) (size v) (size v)
+def usedRows (v : Nat) : List Nat := packRows (isFunction v) (size v) (size v)
+
+/-- the four Micro QR mask patterns (i = row, j = column) -/
+def maskCond (m i j : Nat) : Bool :=
+  match m with
+  | 0 => i % 2 = 0
+  | 1 => (i / 2 + j / 3) % 2 = 0
+  | 2 => ((i * j) % 2 + (i * j) % 3) % 2 = 0
+  | _ => ((i + j) % 2 + (i * j) % 3) % 2 = 0
+
+def maskRows (m width height : Nat) : List Nat := packRows (fun x y => maskCond m y x) width height
+
+end Micro
+
+namespace RMQR
+
+/-- (height, width) of the 32 rMQR versions in indicator order -/
+def sizes : List (Nat × Nat) :=
+  [(7, 43), (7, 59), (7, 77), (7, 99), (7, 139), (9, 43), (9, 59), (9, 77), (9, 99), (9, 139),
+   (11, 27), (11, 43), (11, 59), (11, 77), (11, 99), (11, 139), (13, 27), (13, 43), (13, 59), (13, 77), (13, 99), (13, 139),
+   (15, 43), (15, 59), (15, 77), (15, 99), (15, 139), (17, 43), (17, 59), (17, 77), (17, 99), (17, 139)]
+
+def height (v : Nat) : Nat := (sizes[v]?.getD (0, 0)).1
+def width (v : Nat) : Nat := (sizes[v]?.getD (0, 0)).2
+
+/-- columns of the alignment patterns / vertical timing patterns, by symbol width -/
+def alignCols (w : Nat) : List Nat :=
+  if w = 43 then [21] else if w = 59 then [19, 39] else if w = 77 then [25, 51]
+  else if w = 99 then [23, 49, 75] else if w = 139 then [27, 55, 83, 111] else []
+
+/-- alignment pattern (3x3, rows 0-2 and h-3..h-1) covering (x, y): its centre column -/
+def alignCol (w h x y : Nat) : Option Nat :=
+  if y ≤ 2 || y + 3 ≥ h then (alignCols w).find? (fun c => QR.dist x c ≤ 1) else none
+
+def inFormat1 (x y : Nat) : Bool := (8 ≤ x && x ≤ 10 && 1 ≤ y && y ≤ 5) || (x = 11 && 1 ≤ y && y ≤ 3)
+def inFormat2 (w h x y : Nat) : Bool :=
+  (w - 8 ≤ x && x ≤ w - 6 && h - 6 ≤ y && y ≤ h - 2) || (y = h - 6 && w - 5 ≤ x && x ≤ w - 3)
+
+def isFunction (v x y : Nat) : Bool :=
+  let w := width v
+  let h := height v
+  x = 0 || y = 0 || x = w - 1 || y = h - 1 ||            -- timing on the four edges
+  (alignCols w).contains x || (alignCol w h x y).isSome ||   -- vertical timing and alignment patterns
+  (x < 8 && y < 8) ||                                       -- finder and separator
+  (x ≥ w - 5 && y ≥ h - 5) ||                               -- finder sub pattern
+  (x ≥ w - 2 && y ≤ 1) || (h > 7 && x ≤ 1 && y ≥ h - 2) ||   -- corner finder patterns
+  inFormat1 x y || inFormat2 w h x y
+
+def isDark (v x y : Nat) : Bool :=
+  let w := width v
+  let h := height v
+  if x < 8 && y < 8 then x < 7 && y < 7 && QR.finderDark 3 3 x y
+  else if x ≥ w - 5 && y ≥ h - 5 then max (QR.dist x (w - 3)) (QR.dist y (h - 3)) != 1
+  else if x ≥ w - 2 && y ≤ 1 then !(x = w - 2 && y = 1)
+  else if h > 7 && x ≤ 1 && y ≥ h - 2 then !(x = 1 && y = h - 2) && !(h = 9 && x = 0 && y = h - 2)
+  else if inFormat1 x y || inFormat2 w h x y then false
+  else match alignCol w h x y with
+    | some c => !(x = c && (y = 1 || y + 2 = h))
+    | none =>
+      if y = 0 || y = h - 1 then x % 2 = 0
+      else if x = 0 || x = w - 1 || (alignCols w).contains x then y % 2 = 0
+      else false
+
+def baseRows (v : Nat) : List Nat := packRows (isDark v) (width v) (height v)
+def usedRows (v : Nat) : List Nat := packRows (isFunction v) (width v) (height v)
+
+/-- the single rMQR mask pattern -/
+def maskRows (width height : Nat) : List Nat := packRows (fun x y => (y / 2 + x / 3) % 2 = 0) width height
+
+end RMQR
+end QRV.Spec.Patterns
